@@ -31,6 +31,11 @@ ORACLE (implementation line only; equality = gen_serde.sval_eq / tv_eq):
 Duplicate-key family (kind `dup-key`, gen_serde.dup_key_case; outside has_type): `tryfrom` on maps written from a list of
 pairs that repeats a key — try_from and parse(to_string) must end up with the same value for the repeated key.
 
+Nested-None family (kind `nested-none:<shape>`, gen_serde.nested_none_case; the same family as in C07): `tryfrom` and
+`routes_ser` on values with a None below a field (in a sequence, behind Some, in a newtype / tuple / variant payload, in a
+sequence inside a map) and on the control shapes (None directly in a field): try_from and to_string must give the same
+verdict (unsupported-none / the same tree).
+
 Known classes (recorded defects, see DESIGN.md section 7 / known_findings.json):
   (repaired in /repo, no longer accepted as classes; the former witnesses stay in the fixed cases as regression cases:
      C13-tryinto-datetime-string  `impl Deserializer for toml::Value` handed a date-time to the visitor as a STRING;
@@ -39,8 +44,12 @@ Known classes (recorded defects, see DESIGN.md section 7 / known_findings.json):
      C13-tryfrom-datetime-table   toml::value::ValueSerializer::serialize_struct ignored the date-time tunnel name and
         wrote a Table with the private key `$__toml_private_datetime`; it now yields Value::Datetime.
      C13-valueser-root-tuple-variant  toml::ser::ValueSerializer wrote a tuple variant at the root as a bare array,
-        dropping its name; it now writes `{ T = [1, 2] }` like toml_edit's ValueSerializer.)
-  C07-tryfrom-nested-none-dropped   (see lib/props/c07.py) shows here as try_from = Ok where to_string = Err(unsupported-none).
+        dropping its name; it now writes `{ T = [1, 2] }` like toml_edit's ValueSerializer.
+     C06-root-datetime-printed-as-table  toml::ser::Serializer / ValueSerializer::serialize_struct dropped the struct name:
+        a date-time at the ROOT was written as the table { "$__toml_private_datetime" = ".." } (a document by to_string);
+        ValueSerializer now writes the date-time, to_string refuses it as a non-table (fixed cases `root-datetime`).)
+  C07-tryfrom-nested-none-dropped   (repaired in /repo, see lib/props/c07.py; no longer accepted as a class) showed here as
+        try_from = Ok, a field dropped, where to_string = Err(unsupported-none).  The former witness stays in the fixed cases.
   private-datetime-key (F14)   the case spells one of the private in-band names.
 """
 import collections, copy
@@ -69,11 +78,13 @@ THEOREMS = [
     "C13_twin_deserializers / C13_decode_routes: for every type without char-keyed maps and EVERY tree, any two routes that succeed return equal values (up to map order); the table route needs a root with distinct keys not starting with the private key",
     "C13_on_serialized / C13_on_serialized_value: every toml_edit-based route returns the value for every type, on the document and on the single-value text; the toml::Value / toml::Table routes too, date-times included, when no table key of the serialized tree spells the private tunnel name (F14).  C13_on_serialized_datetime, C13_value_text_tuple_variant: the former witnesses of the repaired C13-tryinto-datetime-string and C13-valueser-root-tuple-variant, now positive; C13_datetime_is_not_a_string: no route hands the text of a date-time to a String target",
     "C13_try_from / C13_twin_serializers: Value::try_from / Table::try_from build exactly the toml::Value (same key order) the serialized document parses to, date-times included, when no table key spells the private tunnel name (C13_try_from_datetime: the former witness of the repaired C13-tryfrom-datetime-table)",
+    "C13_try_from_same_verdict / C13_try_from_accepts_only_serializable / C13_table_try_from_accepts_only_serializable: the converse — for types whose map keys are not char / Option<_> (doc_keys) Value::try_from succeeds exactly when toml_edit's ValueSerializer does, then with the tree the serialized value parses to; Table::try_from accepts nothing ValueSerializer refuses (since the repair of C07-tryfrom-nested-none-dropped)",
 ]
 RULE = ("(type, document) pairs: documents rendered from a random value of the type in random layouts, the same with one "
         "tree mutation (extra / missing / retyped / out-of-range entry) or decoded at a mutated type; library-serialized "
         "texts of random supported values; try_from vs parse(to_string), also on the duplicate-key family (maps written from "
-        "pair lists that repeat a key); non-trivial = type depth >= 2")
+        "pair lists that repeat a key) and on the nested-None family (a None below a field in each of 11 positions, 3 control "
+        "shapes); non-trivial = type depth >= 2")
 ASSUMPTIONS = [
     "serde_derive / serde's std impls are written into coq/Model/Ser.v, De.v as their functional spec; the same protocol is `dynserde`, checked on every run against real derived types (command `fidelity`)",
     "python-rendered documents are TOML 1.0 by construction (the harness reports `valid=`; an invalid rendering is a generator bug and fails the check)",
@@ -186,6 +197,17 @@ def mutate_type(rng, g, ty):
 _TV_TAG = {"s": "S", "i": "I", "f": "D", "b": "B", "d": "X"}
 
 
+def root_datetime_text(ty, v):
+    """the text of the date-time when the value IS a date-time (behind Some / newtype structs), else None"""
+    while ty[0] in ("N", "O") and v[0] in ("W", "O"):
+        ty, v = (ty[2] if ty[0] == "N" else ty[1]), v[1]
+    if ty[0] in ("dt", "da", "ti") and v[0] == "X":
+        return v[1]
+    if ty[0] == "v" and v[0] == "V" and v[1][0] == "X":
+        return v[1][1]
+    return None
+
+
 def tree_tv(n):
     """gen_serde.to_tree node -> the toml-value form gen_serde.tv_str prints"""
     if n[0] == "a":
@@ -221,6 +243,9 @@ S3_VAL = ("R", [("O", ("L", [("O", ("I", 1)), ("N",)]))])
 # enum E { T(i32, i32) }, E::T(1, 2): toml::ser::ValueSerializer wrote `[1, 2]` (C13-valueser-root-tuple-variant, repaired): regression case
 TV_TY = ("E", "E", [("T", "t", [("int", "i32"), ("int", "i32")])])
 TV_VAL = ("E", 0, ("L", [("I", 1), ("I", 2)]))
+_RDT = ("X", "1979-05-27T07:32:00Z")
+ROOT_DT = [(("dt",), _RDT), (("da",), ("X", "1979-05-27")), (("ti",), ("X", "07:32:00.5")), (("O", ("dt",)), ("O", _RDT)),
+           (("N", "W", ("dt",)), ("W", _RDT)), (("v",), ("V", _RDT)), (("N", "W", ("O", ("v",))), ("W", ("O", ("V", ("X", "1979-05-27")))))]
 # F14 on serialized text: struct S { m: BTreeMap<String, i32> } with the private field name as a key — to_string writes
 # `[m]` / `"$__toml_private_datetime" = 127`, which toml::Value's visitor takes for a date-time (routes tval / ttab fail)
 F14_TY = ("S", "S", [("m", ("M", ("s",), ("int", "i32")))])
@@ -236,6 +261,13 @@ def fixed_cases(rng):
     out.append(vcase("tryfrom", S3_TY, S3_VAL, "S3-witness"))
     out.append(vcase("routes_ser", TV_TY, TV_VAL, "S4-witness"))
     out.append(vcase("routes_ser", F14_TY, F14_VAL, "F14-witness"))
+    # a date-time at the ROOT (the witness of the repaired C06-root-datetime-printed-as-table: toml/src/ser.rs serialize_struct
+    # dropped the struct name): toml::ser::ValueSerializer writes the date-time itself (before: the table
+    # { "$__toml_private_datetime" = ".." }), which tvd / evd / tvdval read back; toml::to_string refuses it as a non-table;
+    # Value::try_from yields the date-time
+    for rty, rv in ROOT_DT:
+        out.append(vcase("routes_ser", rty, rv, "root-datetime"))
+        out.append(vcase("tryfrom", rty, rv, "root-datetime"))
     # F14: a table whose first key is the private field name (all routes read a date-time / fail alike since the repair
     # of C13-tryinto-datetime-string)
     f14 = ("S", "S", [("t", ("v",))])
@@ -287,6 +319,12 @@ def gen_cases(rng, tier):
     for _ in range(400 if tier == "quick" else 6000):
         ty, v = G.dup_key_case(rng)
         out.append(vcase("tryfrom", ty, v, "dup-key"))
+    # the nested-None family (gen_serde.nested_none_case): try_from and serialize-then-parse give the same verdict on a None
+    # below a field in every position, and on a None directly in a field
+    for i in range(420 if tier == "quick" else 8400):
+        ty, v, shape = G.nested_none_case(rng, G.NESTED_NONE_SHAPES[i % len(G.NESTED_NONE_SHAPES)])
+        out.append(vcase("tryfrom", ty, v, "nested-none:" + shape))
+        out.append(vcase("routes_ser", ty, v, "nested-none:" + shape))
     return out
 
 
@@ -327,15 +365,23 @@ def judge(case, line):
             must_all_succeed = True
             for side, route in (("doc", "tp"), ("val", "val")):
                 x = f.get(side, "")
+                # both of toml's serializers look at the root value itself (a struct variant there is refused by
+                # name); the single-value one does not ask for a table
+                allowed = G.unsupported_kinds(ty, v, "tp") if side == "doc" else (G.unsupported_kinds(ty, v, "tp") - {"root-not-table"})
                 if x.startswith("err("):
                     kind = x[4:-1]
-                    # both of toml's serializers look at the root value itself (a struct variant there is refused by
-                    # name); the single-value one does not ask for a table
-                    allowed = G.unsupported_kinds(ty, v, "tp") if side == "doc" else (G.unsupported_kinds(ty, v, "tp") - {"root-not-table"})
                     STATS["noser:" + kind] += 1
                     if kind not in allowed:
                         out.append(("serializing (%s) fails with %s, outside the documented unsupported shapes %s" % (side, kind, sorted(allowed)),
                                     "private-datetime-key" if private else None))
+                elif x.startswith("ok:"):
+                    # a documented unsupported shape must be refused, not written some other way
+                    if allowed and not private:
+                        out.append(("serializing (%s) succeeds although the value has the documented unsupported shape(s) %s" % (side, sorted(allowed)), None))
+                    # the text of a lone date-time is the date-time (not a table with the private key)
+                    rdt = root_datetime_text(ty, v)
+                    if side == "val" and rdt is not None and x[3:] != rdt.encode().hex():
+                        out.append(("toml::ser::ValueSerializer writes a root date-time as %r" % bytes.fromhex(x[3:]).decode("utf-8", "replace")[:120], None))
         # the harness prints `ok:=` for a dump byte-identical to its reference (the input value for routes_ser, else the
         # first dump of the line): resolve it first
         href = G.val_str(v) if (case.cmd == "routes_ser") else None
@@ -423,10 +469,7 @@ def judge(case, line):
                 text_only = G.unsupported_kinds(ty, v, "tp")
                 tree_kinds = G.unsupported_kinds(ty, v, route)
                 STATS["tryfrom-text-err:" + kind] += 1
-                if kind in tree_kinds and kind == "unsupported-none" and G.nested_none_below_field(ty, v):
-                    out.append(("%s::try_from succeeds (dropping a field) where to_string answers unsupported-none" % ("Value" if a == "val" else "Table"),
-                                "private-datetime-key" if private else "C07-tryfrom-nested-none-dropped"))
-                elif kind not in text_only or kind in tree_kinds:
+                if kind not in text_only or kind in tree_kinds:
                     out.append(("try_from succeeds but to_string fails with %s (not explained by the contracts of the two entry points)" % kind,
                                 "private-datetime-key" if private else None))
             elif x.startswith("err(") and y.startswith("ok:"):
@@ -572,7 +615,14 @@ def compare(case, model_line, impl_line):
         return None
     if case.cmd == "tryfrom":
         iref = {"txt": "val", "ttxt": "tab"}
+        # F14 looks at the FIRST key of a parsed table; the order of the entries of the serialized DOCUMENT is the printer's
+        # (sub-tables move behind plain values), which is below the level of the model (it reads the serializer's tree): when
+        # the case spells a private key the two re-parsed trees are left to the oracle (known class private-datetime-key)
+        skip = ("txt", "ttxt") if G.mentions_private(case.meta["ty"], case.meta["v"]) else ()
         for k, x in m.items():
+            if k in skip:
+                STATS["cmp:tryfrom-private-skipped"] += 1
+                continue
             y = i.get(k)
             if y is None:
                 return "%s missing" % k
